@@ -240,12 +240,40 @@ def scenario_list(thorough):
     return out, cfgs
 
 
-def run_scenario(sc, cfgs, scratch, reset=True):
+class FixedExec:
+    """execution environment over given directories (resume leg: the snapshot directory persists between runs and keeps
+    its path string; the log directory is per phase).  Same interface as mc.world.Exec; close() keeps the files."""
+
+    def __init__(self, root, phase):
+        self.root = root
+        self.log_dir = os.path.join(root, "logs-" + phase)
+        self.snap_dir = os.path.join(root, "snaps")
+        os.makedirs(self.log_dir, exist_ok=True)
+        os.makedirs(self.snap_dir, exist_ok=True)
+
+    def activate(self):
+        os.environ["CLEMATIS_LOG_DIR"] = self.log_dir
+        os.environ["CLEMATIS_SNAPSHOT_DIR"] = self.snap_dir
+
+    def logs(self):
+        from mc import world as W
+        return {k: v.replace(self.root.encode(), b"<ROOT>") for k, v in W.read_dir(self.log_dir).items()}
+
+    def snaps(self):
+        from mc import world as W
+        return {k: v.replace(self.root.encode(), b"<ROOT>") for k, v in W.read_dir(self.snap_dir).items()}
+
+    def close(self):
+        pass
+
+
+def run_scenario(sc, cfgs, scratch, reset=True, ex=None):
     """Returns {name: bytes-as-str} of the digest parts."""
     from mc import world as W
     if reset:
         W.reset_globals()
-    ex = W.Exec(scratch, "c01")
+    if ex is None:
+        ex = W.Exec(scratch, "c01")
     ex.activate()
     _undo = None
     try:
@@ -310,6 +338,100 @@ def run_scenario(sc, cfgs, scratch, reset=True):
                     pass
 
 
+# ------------------------------------------------------------------ resume leg (the initial state on disk)
+# run_turn boots a state from the snapshot directory.  "Same initial state" therefore includes what is on disk, and "does
+# not depend on the process" includes a process that has looked at that directory before.  Units: scenario x disk state,
+#   after-run   the directory as an earlier run of the same scenario left it (per-agent state_*.json files)
+#   full+delta  a snapshot-5.full.json / snapshot-6.delta.json pair (write_snapshot_auto; the delta adds three GEL edges
+#               under one mapping) that the boot loader reconstructs
+# For after-run the second run happens twice from the identical directory contents (same path string): in the process that
+# performed the first run (warm) and in a fresh interpreter; both must agree (dimension warm-process).  The fresh runs of
+# every unit are compared across the hash-seed processes (dimension hashseed).
+RESUME_SCENARIOS = [
+    {"world": "W2t", "cfg": "base", "turns": [["A", "apple"], ["A", "pear fig"]]},
+    {"world": "W2t", "cfg": "gel", "turns": [["A", "apple"], ["B", "apple"]]},
+    {"world": "W1", "cfg": "cadence3_nobust", "turns": [["A", "apple"], ["A", "apple"]]},
+]
+RESUME_DISKS = ["after-run", "full+delta"]
+
+
+def resume_units(thorough):
+    scs = RESUME_SCENARIOS if thorough else RESUME_SCENARIOS[:2]
+    return [{"scenario": sc, "disk": d} for sc in scs for d in RESUME_DISKS]
+
+
+def _edge(src, dst, w):
+    return {"id": "%s→%s" % (src, dst), "src": src, "dst": dst, "rel": "coact", "weight": w, "updated_at": None, "attrs": {}}
+
+
+def _build_full_delta(snap_dir):
+    from clematis.engine import snapshot as S
+    meta = {"schema": "v1.1", "merges": [], "splits": [], "promotions": [], "concept_nodes_count": 0, "edges_count": 1}
+    p1 = {"version_etag": "5", "gel": {"nodes": {}, "edges": {"ep1→ep2": _edge("ep1", "ep2", 0.5)}, "meta": dict(meta)}}
+    p2 = json.loads(json.dumps(p1))
+    p2["version_etag"] = "6"
+    for a, b, w in (("ep2", "ep4", 0.25), ("ep1", "ep4", -0.25), ("ep4", "ep5", 0.75)):
+        p2["gel"]["edges"]["%s→%s" % (a, b)] = _edge(a, b, w)
+    p2["gel"]["meta"]["edges_count"] = 4
+    f1, _ = S.write_snapshot_auto(snap_dir, etag_from=None, etag_to="5", payload=p1)
+    f2, was_delta = S.write_snapshot_auto(snap_dir, etag_from="5", etag_to="6", payload=p2, delta_mode=True)
+    if not was_delta:
+        from mc.runner import HarnessError
+        raise HarnessError("resume leg: write_snapshot_auto did not produce a delta file")
+    os.utime(f1, (1000, 1000))
+    os.utime(f2, (2000, 2000))
+
+
+def _copy_dir(a, b):
+    import shutil
+    shutil.rmtree(b, ignore_errors=True)
+    shutil.copytree(a, b)
+    for fn in os.listdir(a):   # keep modification times (discovery ranks by mtime)
+        st = os.stat(os.path.join(a, fn))
+        os.utime(os.path.join(b, fn), (st.st_atime, st.st_mtime))
+
+
+def resume_child_main(argv):
+    """fresh interpreter: one run of a scenario over a prepared root; prints nothing, writes the digest parts"""
+    spec = json.load(open(argv[0]))
+    import logging
+    logging.disable(logging.CRITICAL)
+    scs, cfgs = scenario_list(False)
+    parts = run_scenario(spec["scenario"], cfgs, None, ex=FixedExec(spec["root"], "fresh"))
+    json.dump(parts, open(argv[1], "w"))
+    return 0
+
+
+def resume_worker(units, scratch, label):
+    """runs in the hash-seed worker process; returns {unit index: {"fresh": parts, "warm": parts?}}"""
+    import shutil
+    scs, cfgs = scenario_list(False)
+    out = {}
+    for j, u in enumerate(units):
+        root = os.path.join(scratch, "rs-%04d-%6s" % (j, str(label)[:6].rjust(6, "_")))
+        shutil.rmtree(root, ignore_errors=True)
+        snaps = os.path.join(root, "snaps")
+        os.makedirs(snaps)
+        entry = {}
+        if u["disk"] == "after-run":
+            run_scenario(u["scenario"], cfgs, None, ex=FixedExec(root, "first"))
+            _copy_dir(snaps, os.path.join(root, "snaps-after-first"))
+            entry["warm"] = run_scenario(u["scenario"], cfgs, None, reset=False, ex=FixedExec(root, "warm"))
+            _copy_dir(os.path.join(root, "snaps-after-first"), snaps)
+        else:
+            _build_full_delta(snaps)
+        sp, op = os.path.join(root, "child-spec.json"), os.path.join(root, "child-out.json")
+        json.dump({"scenario": u["scenario"], "root": root}, open(sp, "w"))
+        pr = subprocess.run([sys.executable, "-m", "props.c01_repro", "--resume-child", sp, op], capture_output=True, text=True)
+        if pr.returncode != 0 or not os.path.exists(op):
+            from mc.runner import HarnessError
+            raise HarnessError("resume child failed: %s" % (pr.stderr or "")[-600:])
+        entry["fresh"] = json.load(open(op))
+        out[str(j)] = entry
+        shutil.rmtree(root, ignore_errors=True)
+    return out
+
+
 def worker_main(argv):
     """Runs in its own process under one PYTHONHASHSEED.  Writes {scenario index: {env label: parts or diff}}."""
     spec = json.load(open(argv[0]))
@@ -359,7 +481,11 @@ def worker_main(argv):
                 if k not in parts:
                     d[k] = None
             res[str(i)]["warm"] = d
-    json.dump({"results": res, "nruns": nruns, "hashseed": os.environ.get("PYTHONHASHSEED")}, open(out_path, "w"))
+    resume = {}
+    if spec.get("shard") == 0:
+        resume = resume_worker(resume_units(spec["thorough"]), scratch, os.environ.get("PYTHONHASHSEED", "x"))
+        nruns += sum(len(v) + (1 if "warm" in v else 0) for v in resume.values())
+    json.dump({"results": res, "nruns": nruns, "hashseed": os.environ.get("PYTHONHASHSEED"), "resume": resume}, open(out_path, "w"))
     return 0
 
 
@@ -661,6 +787,7 @@ def run(run):
                                  stdout=subprocess.PIPE, stderr=subprocess.PIPE)
             procs.append((s, sh, p, op))
     results = {}  # seed -> {scenario idx -> entry}
+    resume_res = {}  # seed -> {unit idx -> {"fresh": parts, "warm": parts}}
     for s, sh, p, op in procs:
         so, se = p.communicate()
         if p.returncode != 0 or not os.path.exists(op):
@@ -669,6 +796,8 @@ def run(run):
         if "harness_error" in data:
             raise HarnessError(data["harness_error"])
         results.setdefault(s, {}).update(data["results"])
+        if data.get("resume"):
+            resume_res[s] = data["resume"]
         run.add("transitions", data["nruns"])
     base_seed = seeds[0]
 
@@ -710,6 +839,38 @@ def run(run):
                         report(dim, i, part, entry["ref"].get(part), got, "clock=%s wall-date=%s tz=%s (hashseed %s)" % (c, dd, zz, s))
     run.add("validated", nvalid + (len(seeds) * len(scs) * (len(clocks) * len(dates) + len(tzs))))
     run.notes["time_zones"] = tzs
+    # ---- resume leg
+    RU = resume_units(thorough)
+    run.notes["resume_units"] = len(RU)
+    if set(resume_res) != set(seeds):
+        raise HarnessError("resume leg: results for hash seeds %r, expected %r" % (sorted(resume_res), seeds))
+    for j, u in enumerate(RU):
+        ref = resume_res[base_seed][str(j)]["fresh"]
+        run.distinct("states", ("resume", json.dumps(u, sort_keys=True)))
+        run.distinct("outcomes", hashlib.sha1(json.dumps(ref, sort_keys=True).encode()).hexdigest())
+        run.add("nontrivial")
+        for s_ in seeds:
+            ent = resume_res[s_][str(j)]
+            nvalid2 = 1
+            for part in sorted(set(ref) | set(ent["fresh"])):
+                if ref.get(part) != ent["fresh"].get(part):
+                    for fld in diff_fields(part, ref.get(part), ent["fresh"].get(part)):
+                        stream = "snapshot" if part.startswith("snap:") else (part.split(":", 1)[1] if ":" in part else part)
+                        run.violation("hashseed:%s:%s" % (stream, fld),
+                                      "resume unit %s: %s differs in field %s between PYTHONHASHSEED=%s and %s (fresh run booted from the prepared snapshot directory)" % (
+                                          json.dumps(u), part, fld, base_seed, s_),
+                                      {"resume": u, "dimension": "hashseed", "part": part, "field": fld})
+            if "warm" in ent:
+                nvalid2 += 1
+                for part in sorted(set(ent["fresh"]) | set(ent["warm"])):
+                    if ent["fresh"].get(part) != ent["warm"].get(part):
+                        for fld in diff_fields(part, ent["fresh"].get(part), ent["warm"].get(part)):
+                            stream = "snapshot" if part.startswith("snap:") else (part.split(":", 1)[1] if ":" in part else part)
+                            run.violation("warm-process:%s:%s" % (stream, fld),
+                                          "resume unit %s: %s differs in field %s between the run resumed in a fresh interpreter and the same run resumed in the process that did the first run (hashseed %s)" % (
+                                              json.dumps(u), part, fld, s_),
+                                          {"resume": u, "dimension": "warm-process", "part": part, "field": fld})
+            run.add("validated", nvalid2)
     TU = threads_units(thorough)
     run.notes["thread_schedule_units"] = len(TU)
     items = _threads_roots(TU, run)
@@ -741,6 +902,17 @@ def replay(case):
     scs, cfgs = scenario_list(True)
     d = tempfile.mkdtemp(prefix="c01r", dir="/dev/shm" if os.path.isdir("/dev/shm") else None)
     try:
+        if case.get("resume") is not None:
+            if case.get("dimension") != "warm-process" or case["resume"]["disk"] != "after-run":
+                return []  # needs several interpreters with different hash seeds: re-run the check
+            ent = resume_worker([case["resume"]], d, "replay")["0"]
+            out = []
+            for part in sorted(set(ent["fresh"]) | set(ent["warm"])):
+                if ent["fresh"].get(part) != ent["warm"].get(part):
+                    for fld in diff_fields(part, ent["fresh"].get(part), ent["warm"].get(part)):
+                        stream = "snapshot" if part.startswith("snap:") else (part.split(":", 1)[1] if ":" in part else part)
+                        out.append(("warm-process:%s:%s" % (stream, fld), "differs"))
+            return out
         if case.get("dimension") == "threads":
             unit = case["unit"]
             pe = _thr_explorer(unit, unit["bound"])
@@ -786,3 +958,5 @@ def replay(case):
 if __name__ == "__main__":
     if len(sys.argv) >= 2 and sys.argv[1] == "--worker":
         sys.exit(worker_main(sys.argv[2:]))
+    if len(sys.argv) >= 2 and sys.argv[1] == "--resume-child":
+        sys.exit(resume_child_main(sys.argv[2:]))
